@@ -178,6 +178,7 @@ namespace pc
         bool wellformed = true;
         std::string expect; // canonical message the generator intends (well-formed only)
         std::string label;
+        size_t limit = 0;   // parser size limit to use for this message (0: the harness default)
     };
 
     struct HeaderAlt
@@ -234,14 +235,15 @@ namespace pc
 
     struct Body
     {
-        int kind; // 0 none, 1 content-length, 2 chunked
+        int kind; // 0 none, 1 content-length, 2 chunked, 3 chunked with trailer fields after the last chunk
         std::vector<int> sizes;
     };
     inline std::vector<Body> bodies()
     {
         return {
             { 0, {} }, { 1, { 0 } }, { 1, { 1 } }, { 1, { 5 } }, { 1, { 64 } },
-            { 2, {} }, { 2, { 1 } }, { 2, { 5 } }, { 2, { 1, 10 } }, { 2, { 16 } }, { 2, { 255, 1 } }
+            { 2, {} }, { 2, { 1 } }, { 2, { 5 } }, { 2, { 1, 10 } }, { 2, { 16 } }, { 2, { 255, 1 } },
+            { 3, { 5 } }, { 3, { 1, 10 } }
         };
     }
     inline std::string payload(size_t n, int salt)
@@ -270,7 +272,7 @@ namespace pc
             raw.push_back(std::string("Content-Length=") + tmp);
             wire = plain;
         }
-        else if (b.kind == 2)
+        else if (b.kind == 2 || b.kind == 3)
         {
             head += "Transfer-Encoding: chunked\r\n";
             typed.push_back("Transfer-Encoding=chunked");
@@ -283,7 +285,8 @@ namespace pc
                 wire += tmp + d + "\r\n";
                 plain += d;
             }
-            wire += "0\r\n\r\n";
+            // (trailer fields are skipped by the parser: the expected message is that of the plain chunked form)
+            wire += b.kind == 3 ? "0\r\nX-Trailer: t1\r\nX-Sum: 9\r\n\r\n" : "0\r\n\r\n";
         }
     }
 
